@@ -27,12 +27,15 @@ FRAC_VALUES = ("1/2", "-5/2")          # exact in every float dtype; only genera
 X_LAYOUTS = ("transposed", "strided", "offset", "expand_last", "expand0")
 IDX_LAYOUTS = ("strided", "transposed", "offset")
 CALLS = ("positional", "keyword", "defaults")
+APPENDED = 900                          # content of masked-out frames appended for the stability check
 FILLER = 901                            # content of the cells of a larger buffer that are NOT part of a view
 SIG_PAD_GT_T = "C09.replicate.pad_gt_T"
 SIG_T0 = "C09.chunk.empty_time_dim"
 SIG_PROP_PAIR = "C09.random_shift.prop_pair_rejected"
 SIG_BCAST = "C09.masked.broadcast_mask"
 SIG_F32 = "C09.random_shift.float32_bound"
+BIG_SIZES = (15, 16, 17, 31, 32, 33, 63, 64, 65, 127, 128, 129)    # + 'huge': 1000, 1023..1025, 1001..1300, 2049
+MID_SIZES = (255, 256, 257, 511, 512, 513)
 U_EXTREME = ("16777215/16777216", "8388607/8388608", "4194303/4194304", "1/16777216", "0", "1/2")
 
 
@@ -43,9 +46,20 @@ def prod(l):
     return p
 
 
-def mk_x(rng, N, T, F):
-    vals = rng.sample(range(1, 900), N * T * F) if N * T * F <= 899 else [
-        rng.randrange(1, 900) for _ in range(N * T * F)]
+def mk_x(rng, N, T, F, dtype=None):
+    """N x T x F nested list of cell values, DISTINCT wherever the dtype can hold that many exact integers
+    (a reordering of elements must show): up to 899 cells a sample of 1..899; beyond that a sample of
+    1..cells+1 (never FILLER); float16 holds the integers up to 2048 exactly, so there the pool is 1..2047
+    reshuffled as often as needed (distinct within any 2046 consecutive cells, i.e. within a row)."""
+    cells = N * T * F
+    if cells <= 899:
+        vals = rng.sample(range(1, 900), cells)
+    else:
+        top = 2047 if dtype == "float16" else cells + 1
+        pool = [v for v in range(1, top + 1) if v != FILLER]
+        vals = []
+        while len(vals) < cells:
+            vals += rng.sample(pool, min(len(pool), cells - len(vals)))
     it = iter(vals)
     return [[[next(it) for _ in range(F)] for _ in range(T)] for _ in range(N)]
 
@@ -159,7 +173,15 @@ def patched_rand_like(draws, record):
 class C09(PropertyCheck):
     pid = "C09"
     rule = ("random batches: N 1..4 (0 in a boundary stream, up to 7 in a size stream), T 0..6 (up to 17 in the "
-            "size stream, up to 40 in the rounding stream), 0-4 trailing dims (sizes 0..3), integer cell values, "
+            "size stream, up to 40 in the rounding stream), 0-4 trailing dims (sizes 0..3), integer cell values "
+            "(distinct wherever the dtype can hold them); a LARGE stream: every function and mode (pad x3, chunk x3, "
+            "masked in both layouts, random_shift x3) with the time dimension at and around 16, 32, 64, 128, "
+            "256/512 and beyond 1000 (15/16, 17, 31-33, 63-65, 127-129, 255-257/511-513, 1000-1300/2049), and "
+            "likewise the batch dimension, the frame size, and (small tensors) the pad amounts / slice bounds / "
+            "shift proportions; uniform requests a fast path could single out (all sequences full length, the same "
+            "pads or slice for every row, nothing to pad on one side, no slice reaching outside, masks already "
+            "compact / true cells last / equal counts); pad_masked_sequence additionally re-run with k masked-out "
+            "elements appended to every sequence (k small or carrying T across the next size threshold), "
             "dtype float32/float64/float16/int64/int32/bool, x contiguous / transposed strides / strided view / "
             "offset view / expanded along the batch or the last dimension, lens-pad-slices int64 or int32 and "
             "contiguous / strided / transposed / offset, pad value -1, 0, 7 (float or python int) and 1/2, -5/2 "
@@ -193,7 +215,8 @@ class C09(PropertyCheck):
         gens = [self.gen_pad(rng, 1100 * n), self.gen_chunk(rng, 1300 * n), self.gen_masked(rng, 350 * n),
                 self.gen_shift(rng, 400 * n), self.gen_malformed(rng, 175 * n),
                 self.gen_shift_rounding(rng, 150 * n), self.gen_sizes(rng, 120 * n),
-                self.gen_shapes(rng, 240 * n)]
+                self.gen_shapes(rng, 240 * n),
+                self.gen_large(rng, {"quick": 144, "thorough": 576, "search": 432}[tier])]
         if tier != "quick":
             gens.append(self.gen_exhaustive())
         # interleave so that a budget cut does not starve one stream
@@ -254,15 +277,20 @@ class C09(PropertyCheck):
                 return False
         return True
 
-    def common(self, rng, fn):
-        mode = rng.choice(MODES)
-        N = rng.randint(1, 4)
-        T = rng.choice([1, 1, 2, 3, 4, 5, 6, 6]) if rng.random() > 0.04 else 0
-        trail = rng.choice(TRAILS)
+    def common(self, rng, fn, dims=None, mode=None):
+        """One request skeleton; `dims = (N, T, trail)` / `mode` given by the size stream, drawn otherwise."""
+        mode = mode or rng.choice(MODES)
+        if dims is None:
+            N = rng.randint(1, 4)
+            T = rng.choice([1, 1, 2, 3, 4, 5, 6, 6]) if rng.random() > 0.04 else 0
+            trail = rng.choice(TRAILS)
+        else:
+            N, T, trail = dims
         F = prod(trail)
-        c = {"fn": fn, "entry": rng.choice(["functional", "module"]), "dtype": rng.choice(DTYPES),
+        dtype = rng.choice(DTYPES)
+        c = {"fn": fn, "entry": rng.choice(["functional", "module"]), "dtype": dtype,
              "trail": trail, "value": rng.choice(VALUES), "mode": mode, "N": N, "T": T,
-             "x": mk_x(rng, N, T, F)}
+             "x": mk_x(rng, N, T, F, dtype)}
         self.vary(rng, c)
         return c
 
@@ -307,131 +335,210 @@ class C09(PropertyCheck):
 
     def gen_pad(self, rng, count):
         for _ in range(count):
-            c = self.common(rng, "pad")
-            mode, N, T = c["mode"], c["N"], c["T"]
-            if T == 0 and mode != "constant":
-                c["mode"] = mode = "constant"
-            lo = 0 if mode == "constant" else 1
-            lens = [rng.randint(lo, T) if rng.random() > 0.25 else T for _ in range(N)]
-            style = rng.random()
-            hi = 2 * T if style < 0.6 else (T if style < 0.85 else max(1, T // 2))
-            pad = []
-            for _side in range(2):
-                row = []
-                for n in range(N):
-                    if mode == "reflect":
-                        row.append(rng.randint(0, lens[n] - 1))
-                    else:
-                        row.append(0 if rng.random() < 0.15 else rng.randint(0, max(hi, 1)))
-                pad.append(row)
-            c.update(lens=lens, pad0=pad[0], pad1=pad[1])
-            yield c
+            yield self.fill_pad(rng, self.common(rng, "pad"))
+
+    def fill_pad(self, rng, c, far=None):
+        """lens and pads of a pad_variable request. `far`: the largest pad amount, however short the batch
+        (constant / replicate; reflect pads stay below the length)."""
+        mode, N, T = c["mode"], c["N"], c["T"]
+        if T == 0 and mode != "constant":
+            c["mode"] = mode = "constant"
+        lo = 0 if mode == "constant" else 1
+        lens = [rng.randint(lo, T) if rng.random() > 0.25 else T for _ in range(N)]
+        style = rng.random()
+        hi = 2 * T if style < 0.6 else (T if style < 0.85 else max(1, T // 2))
+        pad = []
+        for _side in range(2):
+            row = []
+            for n in range(N):
+                if mode == "reflect":
+                    row.append(rng.randint(0, lens[n] - 1))
+                elif far is not None:
+                    row.append(rng.choice([0, far, far, rng.randint(0, far), max(far - 1, 0)]))
+                else:
+                    row.append(0 if rng.random() < 0.15 else rng.randint(0, max(hi, 1)))
+            pad.append(row)
+        # requests a fast path could single out: every sequence full length, the same pads for every row,
+        # nothing to pad on one side (and combinations: the ranges overlap)
+        if N >= 2:
+            r = rng.random()
+            if r < 0.08 and T:
+                lens = [T] * N                                 # pads drawn for shorter rows stay legal
+            if 0.04 <= r < 0.14:
+                k = min(range(N), key=lambda n: lens[n])
+                pad = [[side[k]] * N for side in pad]          # legal for reflect: the shortest row's pads
+            if 0.10 <= r < 0.20:
+                pad[rng.randrange(2)] = [0] * N
+        c.update(lens=lens, pad0=pad[0], pad1=pad[1])
+        return c
 
     def gen_chunk(self, rng, count):
         for _ in range(count):
-            c = self.common(rng, "chunk")
-            mode, N, T = c["mode"], c["N"], c["T"]
-            lo = 0 if mode == "constant" else 1
-            if T == 0:
-                lens = None if rng.random() < 0.5 else [0] * N
-                eff = [0] * N
-            elif rng.random() < 0.2:
-                lens, eff = None, [T] * N
-            else:
-                lens = [rng.randint(lo, T) for _ in range(N)]
-                eff = lens
+            yield self.fill_chunk(rng, self.common(rng, "chunk"))
+
+    @staticmethod
+    def chunk_row(rng, mode, L, T, R):
+        """one slice [s, e) for a sequence of length L in a batch of time dimension T; free bounds are drawn
+        from [-R-2, 2R] (R = T in the main streams)"""
+        k = rng.random()
+        if mode == "reflect" and L >= 3 and rng.random() < 0.2:
+            # the reflect special case, forced: the slice starts STRICTLY beyond the end of the
+            # sequence (offset = s - L > 0) and stays legal (e - L < L); one time in four it is
+            # empty / inverted there (the code's `right_pad -= offset` then goes negative)
+            s = rng.randint(L + 1, 2 * L - 2)
+            e = rng.randint(s + 1, 2 * L - 1) if rng.random() < 0.75 else s - rng.randint(0, 2)
+        elif k < 0.45:
+            s, e = rng.randint(-R - 2, 2 * R), rng.randint(-R - 2, 2 * R)
+        elif k < 0.6:      # wholly right of the sequence
+            s = rng.randint(L, max(L, 2 * R))
+            e = rng.randint(s, max(s, 2 * R)) if mode != "reflect" else rng.randint(s, max(s, 2 * L - 1))
+        elif k < 0.7:      # wholly left
+            e = rng.randint(-R - 1, 0)
+            s = rng.randint(-R - 2, e)
+        elif k < 0.8:      # empty / inverted
+            s = rng.randint(-R - 2, 2 * R)
+            e = s - rng.randint(0, 3)
+        else:              # overlapping the sequence
+            s = rng.randint(-min(T, max(L - 1, 0)) - 0, max(L - 1, 0))
+            e = rng.randint(s, L + max(L - 1, 0))
+        return [s, e]
+
+    def fill_chunk(self, rng, c, far=None, per_row=False):
+        """lens and slices of a chunk_by_slices request. `far`: slice bounds drawn from [-far-2, 2 far] however
+        short the batch; `per_row`: a reflect request is made legal row by row (large batches: redrawing the
+        whole batch until every row is legal would practically never succeed)."""
+        mode, N, T = c["mode"], c["N"], c["T"]
+        lo = 0 if mode == "constant" else 1
+        R = T if far is None else far
+        if T == 0:
+            lens = None if rng.random() < 0.5 else [0] * N
+            eff = [0] * N
+        elif rng.random() < 0.2:
+            lens, eff = None, [T] * N
+        else:
+            lens = [rng.randint(lo, T) for _ in range(N)]
+            eff = lens
+        if per_row:
+            sl = []
+            for n in range(N):
+                for _try in range(40):
+                    row = self.chunk_row(rng, mode, eff[n], T, R)
+                    if mode != "reflect" or T == 0 or self.reflect_legal([row], [eff[n]]):
+                        break
+                else:
+                    row = [-(eff[n] - 1), 2 * eff[n] - 1] if eff[n] else [0, 0]
+                sl.append(row)
+        else:
             for _try in range(40):
-                sl = []
-                for n in range(N):
-                    L = eff[n]
-                    k = rng.random()
-                    if mode == "reflect" and L >= 3 and rng.random() < 0.2:
-                        # the reflect special case, forced: the slice starts STRICTLY beyond the end of the
-                        # sequence (offset = s - L > 0) and stays legal (e - L < L); one time in four it is
-                        # empty / inverted there (the code's `right_pad -= offset` then goes negative)
-                        s = rng.randint(L + 1, 2 * L - 2)
-                        e = rng.randint(s + 1, 2 * L - 1) if rng.random() < 0.75 else s - rng.randint(0, 2)
-                    elif k < 0.45:
-                        s, e = rng.randint(-T - 2, 2 * T), rng.randint(-T - 2, 2 * T)
-                    elif k < 0.6:      # wholly right of the sequence
-                        s = rng.randint(L, 2 * T)
-                        e = rng.randint(s, 2 * T) if mode != "reflect" else rng.randint(s, max(s, 2 * L - 1))
-                    elif k < 0.7:      # wholly left
-                        e = rng.randint(-T - 1, 0)
-                        s = rng.randint(-T - 2, e)
-                    elif k < 0.8:      # empty / inverted
-                        s = rng.randint(-T - 2, 2 * T)
-                        e = s - rng.randint(0, 3)
-                    else:              # overlapping the sequence
-                        s = rng.randint(-min(T, max(L - 1, 0)) - 0, max(L - 1, 0))
-                        e = rng.randint(s, L + max(L - 1, 0))
-                    sl.append([s, e])
+                sl = [self.chunk_row(rng, mode, eff[n], T, R) for n in range(N)]
                 if mode != "reflect" or T == 0 or self.reflect_legal(sl, eff):
                     break
             else:
                 sl = [[0, eff[n]] for n in range(N)]
-            c.update(lens=lens, slices=sl)
-            yield c
+        # requests a fast path could single out: the same slice for every row, no slice reaching outside its
+        # sequence (nothing to pad), every sequence returned whole
+        if N >= 2 and T:
+            r = rng.random()
+            if r < 0.06:
+                k = min(range(N), key=lambda n: eff[n])
+                sl = [list(sl[k]) for _ in range(N)]           # legal for reflect: the shortest row's slice
+            elif r < 0.12:
+                sl = []
+                for n in range(N):
+                    a = rng.randint(0, eff[n])
+                    sl.append([a, rng.randint(a, eff[n]) if rng.random() < 0.9 else a - 1])
+            elif r < 0.15:
+                sl = [[0, eff[n]] for n in range(N)]
+        c.update(lens=lens, slices=sl)
+        return c
 
     def gen_masked(self, rng, count):
         for _ in range(count):
             N, T = rng.randint(0, 4), rng.randint(0, 6)
             if rng.random() < 0.06:
                 N, T = rng.randint(4, 7), rng.randint(6, 12)
-            trail = rng.choice(TRAILS)
-            F = prod(trail)
-            bf = rng.random() < 0.5
-            p = rng.choice([0.0, 0.3, 0.5, 0.8, 1.0])
-            mask_b = [[rng.random() < p for _ in range(T)] for _ in range(N)]   # batch-first view
-            xb = mk_x(rng, N, T, F)
-            if bf:
-                x, mask, outer = xb, mask_b, [N, T]
+            yield self.make_masked(rng, N, T, rng.choice(TRAILS))
+
+    def make_masked(self, rng, N, T, trail, bf=None, density=None):
+        F = prod(trail)
+        bf = rng.random() < 0.5 if bf is None else bf
+        p = rng.choice([0.0, 0.3, 0.5, 0.8, 1.0]) if density is None else density
+        mask_b = [[rng.random() < p for _ in range(T)] for _ in range(N)]   # batch-first view
+        # masks a fast path could single out: already compact (true cells first), true cells last, the same
+        # count in every row
+        r = rng.random()
+        if N and T and r < 0.18:
+            if r < 0.06:
+                mask_b = [[t < k for t in range(T)] for k in (rng.randint(0, T) for _ in range(N))]
+            elif r < 0.12:
+                mask_b = [[t >= k for t in range(T)] for k in (rng.randint(0, T) for _ in range(N))]
             else:
-                x = [[xb[n][t] for n in range(N)] for t in range(T)]
-                mask = [[mask_b[n][t] for n in range(N)] for t in range(T)]
-                outer = [T, N]
-            c = {"fn": "masked", "entry": rng.choice(["functional", "module"]), "dtype": rng.choice(DTYPES),
-                 "trail": trail, "value": rng.choice(VALUES), "N": N, "T": T, "outer_shape": outer,
-                 "x": x, "mask": mask, "batch_first": bf}
-            self.vary(rng, c)
-            # how the mask is given: full / other strides / constant along one dimension and then either
-            # expanded by the caller or left in its broadcastable (size-1) shape, as documented
-            r = rng.random()
-            if r < 0.15:
-                c["mask_var"] = rng.choice(["transposed", "strided", "offset"])
-            elif r < 0.5:
-                d = rng.randrange(2)
-                if outer[d] >= 1:
-                    c["mask"] = [[c["mask"][0 if d == 0 else a][0 if d == 1 else b] for b in range(outer[1])]
-                                 for a in range(outer[0])]
-                    c["mask_var"] = rng.choice(["bcast", "expand"]) + str(d)
-            yield c
+                k = rng.randint(0, T)
+                mask_b = [rng.sample([True] * k + [False] * (T - k), T) for _ in range(N)]
+        dtype = rng.choice(DTYPES)
+        xb = mk_x(rng, N, T, F, dtype)
+        if bf:
+            x, mask, outer = xb, mask_b, [N, T]
+        else:
+            x = [[xb[n][t] for n in range(N)] for t in range(T)]
+            mask = [[mask_b[n][t] for n in range(N)] for t in range(T)]
+            outer = [T, N]
+        c = {"fn": "masked", "entry": rng.choice(["functional", "module"]), "dtype": dtype,
+             "trail": trail, "value": rng.choice(VALUES), "N": N, "T": T, "outer_shape": outer,
+             "x": x, "mask": mask, "batch_first": bf}
+        self.vary(rng, c)
+        # how the mask is given: full / other strides / constant along one dimension and then either
+        # expanded by the caller or left in its broadcastable (size-1) shape, as documented
+        r = rng.random()
+        if r < 0.15:
+            c["mask_var"] = rng.choice(["transposed", "strided", "offset"])
+        elif r < 0.5:
+            d = rng.randrange(2)
+            if outer[d] >= 1:
+                c["mask"] = [[c["mask"][0 if d == 0 else a][0 if d == 1 else b] for b in range(outer[1])]
+                             for a in range(outer[0])]
+                c["mask_var"] = rng.choice(["bcast", "expand"]) + str(d)
+        # stability (C09_masked_stable): the same request with k masked-out elements appended to every
+        # sequence must give the same selected parts and lengths; k small, or just enough to carry the
+        # sequence dimension across the next size threshold (17, 33, 65, ...)
+        time_axis = 1 if bf else 0
+        if rng.random() < 0.4 and str(c.get("mask_var", "")) not in ("bcast%d" % time_axis,
+                                                                      "expand%d" % time_axis):
+            nxt = [th for th in (17, 33, 65, 129, 257, 1025) if th > T]
+            c["append"] = rng.choice([1, 2, 3] + ([nxt[0] - T] * 3 if nxt and nxt[0] - T <= 40 else []))
+        return c
 
     def gen_shift(self, rng, count):
         for i in range(count):
-            c = self.common(rng, "shift")
-            mode, N, T = c["mode"], c["N"], c["T"]
-            if T == 0:
-                c["mode"] = mode = "constant"
-            lo = 0 if mode == "constant" else 1
-            c["lens"] = [rng.randint(lo, T) for _ in range(N)]
-            hi = 4 if mode == "reflect" else 8       # prop in quarters; reflect needs prop <= 1
-            c["p0"], c["p1"] = (frac_str(Fraction(rng.randint(0, hi), 4)) for _ in range(2))
-            c["training"] = rng.random() < 0.8
-            if rng.random() < 0.3:
-                c["p1"] = c["p0"]
-                c["scalar_prop"] = rng.random() < 0.7
-            if rng.random() < 0.75:
-                c["draws"] = [[frac_str(Fraction(rng.choice([0, 1, 5, 8, 11, 15, 16 * 4 - 1]),
-                                                 rng.choice([16, 64]))) for _ in range(N)] for _ in range(2)]
-                c["draws"] = [[u if Fraction(u) < 1 else "15/16" for u in row] for row in c["draws"]]
-            else:
-                c["draws"] = None          # genuine torch.rand_like, recorded
-                c["torch_seed"] = rng.randrange(1 << 30)
-            if c["entry"] in ("module", "module_parent") and rng.random() < 0.4:
-                # the flag that counts is the last one set (directly or through the parent)
-                c["pre_modes"] = [rng.random() < 0.5 for _ in range(rng.randint(1, 2))]
-            yield c
+            yield self.fill_shift(rng, self.common(rng, "shift"))
+
+    def fill_shift(self, rng, c, far=None):
+        """lens, proportions, draws, mode flags of a random_shift request. `far`: the largest proportion
+        (constant / replicate), however short the batch."""
+        mode, N, T = c["mode"], c["N"], c["T"]
+        if T == 0:
+            c["mode"] = mode = "constant"
+        lo = 0 if mode == "constant" else 1
+        c["lens"] = [rng.randint(lo, T) for _ in range(N)]
+        hi = 4 if mode == "reflect" else 8       # prop in quarters; reflect needs prop <= 1
+        if far is not None and mode != "reflect":
+            hi = 4 * far
+        c["p0"], c["p1"] = (frac_str(Fraction(rng.randint(0, hi), 4)) for _ in range(2))
+        c["training"] = rng.random() < 0.8
+        if rng.random() < 0.3:
+            c["p1"] = c["p0"]
+            c["scalar_prop"] = rng.random() < 0.7
+        if rng.random() < 0.75:
+            c["draws"] = [[frac_str(Fraction(rng.choice([0, 1, 5, 8, 11, 15, 16 * 4 - 1]),
+                                             rng.choice([16, 64]))) for _ in range(N)] for _ in range(2)]
+            c["draws"] = [[u if Fraction(u) < 1 else "15/16" for u in row] for row in c["draws"]]
+        else:
+            c["draws"] = None          # genuine torch.rand_like, recorded
+            c["torch_seed"] = rng.randrange(1 << 30)
+        if c["entry"] in ("module", "module_parent") and rng.random() < 0.4:
+            # the flag that counts is the last one set (directly or through the parent)
+            c["pre_modes"] = [rng.random() < 0.5 for _ in range(rng.randint(1, 2))]
+        return c
 
     def gen_shift_rounding(self, rng, count):
         """Proportions the way users write them (k/len, 0.1, 1/3: doubles that float32 rounds up or down)
@@ -554,6 +661,77 @@ class C09(PropertyCheck):
                          p1=frac_str(Fraction(rng.randint(0, hi), 4)), training=True,
                          draws=[[frac_str(Fraction(rng.randrange(64), 64)) for _ in range(N)] for _ in range(2)])
             yield c
+
+    def gen_large(self, rng, count):
+        """Size-triggered paths. Library code (torch's sort / scan / copy kernels, a rewrite of these functions
+        on top of them) may take another path once a dimension passes a threshold, so every function of the
+        property is run, a few times per run, with one dimension AT AND AROUND 16, 32, 64, 128 and beyond 1000:
+        the time dimension (every target and run: one of 15/16, 17, one of 31-33, 63-65, 127-129, one of
+        1000+), the batch dimension, the frame size, and — small tensors — the pad amounts / slice bounds /
+        shift proportions ('far'). Cell values are distinct (see `mk_x`), so a reordering is visible; dtypes,
+        memory layouts, index dtypes, call styles, entry points and both `batch_first` settings vary as in the
+        main streams (`vary`). Beyond the planned combinations: random ones."""
+        targets = ([("pad", m) for m in MODES] + [("chunk", m) for m in MODES]
+                   + [("masked", True), ("masked", False)] + [("shift", m) for m in MODES])
+        lo, hi = BIG_SIZES[:6], BIG_SIZES[6:]
+        plan = []
+        for tg in targets:
+            plan += [(tg, "T", rng.choice(g)) for g in ((15, 16), (17,), (31, 32, 33), (63, 64, 65),
+                                                        (127, 128, 129), MID_SIZES, ("huge",))]
+            plan += [(tg, "N", rng.choice(lo)), (tg, "N", rng.choice(hi + ("huge", "huge")))]
+            plan += [(tg, "F", rng.choice(lo)), (tg, "F", rng.choice(hi + ("huge", "huge")))]
+            if tg[0] != "masked" and tg[1] != "reflect":
+                plan += [(tg, "far", rng.choice(lo)), (tg, "far", rng.choice(hi + ("huge", "huge")))]
+        rng.shuffle(plan)
+        while len(plan) < count:
+            tg = rng.choice(targets)
+            role = rng.choice(["T", "T", "T", "N", "F", "far"])
+            if role == "far" and (tg[0] == "masked" or tg[1] == "reflect"):
+                role = "T"
+            plan.append((tg, role, rng.choice(BIG_SIZES + MID_SIZES[:3] + ("huge", "huge"))))
+        for tg, role, size in plan[:count]:
+            yield self.large_case(rng, tg, role, size)
+
+    def large_case(self, rng, target, role, size):
+        fn, opt = target
+        big = size if size != "huge" else rng.choice([1000, 1023, 1024, 1025, rng.randint(1001, 1300), 2049])
+        huge = big >= 1000
+        N, T = rng.randint(1, 3 if big < 2000 else 1), rng.randint(2, 6)
+        trail = rng.choice([[], [], [1]] if big > 200 else [[], [], [2], [1, 2], [3]])
+        far = None
+        if role == "T":
+            T = big
+        elif role == "N":
+            N = big
+            T = rng.randint(1, 3 if huge else 6)
+        elif role == "F":
+            trail = rng.choice([[big], [big], [1, big], [big, 1]])
+            T = rng.randint(1, 3 if huge else 6)
+        else:
+            far = big
+        if role in ("T", "N") and big < 200 and rng.random() < 0.25:
+            # two dimensions beyond the small thresholds
+            if role == "T":
+                N = rng.choice(BIG_SIZES[:6])
+            else:
+                T = rng.choice(BIG_SIZES[:6])
+            trail = []
+        if fn == "masked":
+            c = self.make_masked(rng, N, T, trail, bf=opt, density=rng.choice([0.2, 0.5, 0.5, 0.8, 0.95]))
+        else:
+            c = self.common(rng, fn, dims=(N, T, trail), mode=opt)
+            if fn == "pad":
+                self.fill_pad(rng, c, far=far)
+            elif fn == "chunk":
+                self.fill_chunk(rng, c, far=far, per_row=True)
+            else:
+                self.fill_shift(rng, c, far=far)
+                if c.get("draws") is not None:
+                    # draws in 64ths over the whole range (the main stream picks from seven values)
+                    c["draws"] = [[frac_str(Fraction(rng.randrange(64), 64)) for _ in range(N)] for _ in range(2)]
+        c["stream"] = "large"
+        c["large"] = role
+        return c
 
     def gen_malformed(self, rng, count):
         kinds = ["pad.x_ndim", "pad.lens_shape", "pad.pad_shape", "pad.pad_outer", "pad.mode", "pad.reflect_big",
@@ -740,6 +918,8 @@ class C09(PropertyCheck):
                    "shape": list(out.shape)}
             if raw_counts is not None:
                 obs["raw_mask_counts"] = raw_counts
+            if case.get("append"):
+                obs["appended"] = self.run_appended(case)
             return finish(obs, snap)
         if fn == "shift":
             prop = (float(Fraction(case["p0"])), float(Fraction(case["p1"])))
@@ -785,6 +965,27 @@ class C09(PropertyCheck):
                 obs["exact_lens"] = [L + a + b for L, a, b in zip(case["lens"], exact[:k], exact[k:])]
             return finish(obs, snap)
         raise ValueError(f"unknown fn {fn}")
+
+    def run_appended(self, case):
+        """pad_masked_sequence on the same request with `append` masked-out frames (content APPENDED) added at
+        the end of every sequence — through the same entry point, layout, call style."""
+        k, bf, N, T = case["append"], case["batch_first"], case["N"], case["T"]
+        F = prod(case["trail"])
+        if bf:
+            x = [row + [[APPENDED] * F for _ in range(k)] for row in case["x"]]
+            mask = [row + [False] * k for row in case["mask"]]
+            outer = [N, T + k]
+        else:
+            x = case["x"] + [[[APPENDED] * F for _ in range(N)] for _ in range(k)]
+            mask = case["mask"] + [[False] * N for _ in range(k)]
+            outer = [T + k, N]
+        c2 = {q: v for q, v in case.items() if q != "append"}
+        c2.update(x=x, mask=mask, T=T + k, outer_shape=outer)
+        try:
+            o = self.run_impl(c2)
+        except Exception as e:
+            return {"k": k, "error": type(e).__name__, "message": str(e)[:200]}
+        return {"k": k, "lens": o["lens"], "rows": o["rows"], "shape_kept": o["shape_kept"]}
 
     def run_shapes(self, case, torch, Fn, Md):
         """legal data in tensors of the case's shapes"""
@@ -1050,6 +1251,23 @@ class C09(PropertyCheck):
                                   sig))
             if len(impl["rows"]) != N:
                 fails.append(("batch size changed", None))
+            ap = impl.get("appended")
+            if ap is not None:
+                # stability, with the Lean oracle of the ORIGINAL request (C09_masked_stable: appending
+                # masked-out elements changes nothing but the width)
+                k = ap["k"]
+                if "error" in ap or not ap.get("shape_kept"):
+                    fails.append((f"with {k} masked-out elements appended to every sequence: {_short(ap)}", None))
+                else:
+                    if ap["lens"] != spec["lens"]:
+                        fails.append((f"appending {k} masked-out elements changed the lengths: {ap['lens']} != "
+                                      f"{spec['lens']}", None))
+                    for n, (row, sel) in enumerate(zip(ap["rows"], spec["rows"])):
+                        if row != sel + [fill] * (case["T"] + k - len(sel)):
+                            fails.append((f"row {n}: after appending {k} masked-out elements the output "
+                                          f"{_short(row)} is not the selected elements {_short(sel)} followed "
+                                          f"by the pad value", None))
+                            break
             return fails
         if fn == "shift" and not case["training"]:
             if impl["lens"] != case["lens"] or impl["shape"] != [N, case["T"]] + case["trail"]:
@@ -1175,7 +1393,9 @@ class C09(PropertyCheck):
         the naturals UP TO 2^prec, and for a = rnd z >= 1 a product with a representable u < 1 never rounds
         back up to a). Sampled here on IEEE float32 and float64 themselves (numpy), adversarial values included
         (powers of two, the largest draws, the bound 2^prec itself; mul_lt is sampled on all positive normal
-        a, more than the hypothesis asks) — evidence for the hypothesis, not a proof. 2^prec + 1 is checked
+        a, more than the hypothesis asks). The hypothesis is PROVED of the Lean model `roundBits prec`
+        (C09_rounding_float); this sampling is about numpy's floats themselves (whose agreement with
+        `roundBits` is cross-checked on every random_shift case) — evidence, not a proof. 2^prec + 1 is checked
         NOT to be exact: the unbounded form of nat_exact an earlier version assumed is false."""
         import numpy as np
         n = 4000 if tier == "quick" else 40000
@@ -1252,8 +1472,19 @@ class C09(PropertyCheck):
             t.append(f"idx={case['idx']['dtype']}/{case['idx']['layout']}")
         if case.get("stream"):
             t.append(f"stream={case['stream']}")
+        if case.get("large"):
+            t.append(f"large.{fn}.{case['large']}")
         if case["T"] > 6:
             t.append("T>6")
+        # which size thresholds the request lies beyond (time / batch / frame dimension, largest pad or slice reach)
+        reach = max([abs(v) for k in ("pad0", "pad1") for v in case.get(k) or []]
+                    + [abs(v) for p in case.get("slices") or [] for v in p if p[1] > p[0]], default=0)
+        for name, v in (("T", case["T"]), ("N", case["N"]), ("F", prod(case["trail"])), ("reach", reach)):
+            th = [k for k in (17, 33, 65, 129, 257, 513, 1000) if v >= k]
+            if th:
+                t.append(f"{name}>={th[-1]}" + (f".{fn}" if name == "T" else ""))
+            if v in (15, 16, 31, 32, 63, 64, 127, 128):
+                t.append(f"{name}=2^k-1|2^k")
         if isinstance(impl, dict) and impl.get("args_changed"):
             t.append("args_changed")
         if prod(case["trail"]) == 0:
@@ -1268,10 +1499,24 @@ class C09(PropertyCheck):
                 t.append(f"pad.{case['mode']}.pad>T")
             if 0 in case["lens"]:
                 t.append("pad.len0")
+            if case["N"] >= 2:
+                if all(l == T for l in case["lens"]):
+                    t.append("pad.all_full_length")
+                if len(set(case["pad0"])) == 1 and len(set(case["pad1"])) == 1:
+                    t.append("pad.same_pads_every_row")
+                if not any(case["pad0"]) or not any(case["pad1"]):
+                    t.append("pad.one_side_all_zero")
         if fn == "chunk":
             lens = case["lens"] or [T] * case["N"]
             if case["lens"] is None:
                 t.append("chunk.lens=None")
+            if case["N"] >= 2 and T:
+                if len({tuple(p) for p in case["slices"]}) == 1:
+                    t.append("chunk.same_slice_every_row")
+                if all(0 <= s and e <= n for (s, e), n in zip(case["slices"], lens)):
+                    t.append("chunk.no_slice_reaches_outside")
+                if all([s, e] == [0, n] for (s, e), n in zip(case["slices"], lens)):
+                    t.append("chunk.every_sequence_whole")
             if case["mode"] == "reflect" and sum(1 for (s, e), n in zip(case["slices"], lens)
                                                  if e > s > n) >= 2:
                 t.append("chunk.reflect.special_case_rows>=2")
@@ -1293,9 +1538,20 @@ class C09(PropertyCheck):
         if fn == "masked":
             t.append(f"masked.batch_first={case['batch_first']}")
             t.append(f"masked.mask={case.get('mask_var') or 'full'}")
+            if case.get("append"):
+                t.append("masked.appended_masked_out" + (".crossing_threshold" if any(
+                    case["T"] < th <= case["T"] + case["append"] for th in (17, 33, 65, 129, 257, 1025)) else ""))
             flat = [b for r in case["mask"] for b in r]
             if flat and all(flat):
                 t.append("masked.all_true")
+            mb = case["mask"] if case["batch_first"] else [list(r) for r in zip(*case["mask"])]
+            if flat and any(flat) and not all(flat) and case["N"] and case["T"] > 1:
+                if all(r == sorted(r, reverse=True) for r in mb):
+                    t.append("masked.already_compact")
+                elif all(r == sorted(r) for r in mb):
+                    t.append("masked.true_cells_last")
+                if case["N"] >= 2 and len({sum(r) for r in mb}) == 1:
+                    t.append("masked.same_count_every_row")
         if fn == "shift":
             t.append(f"shift.training={case['training']}")
             t.append("shift.draws=" + ("chosen" if case["draws"] is not None else "genuine"))
@@ -1308,12 +1564,91 @@ class C09(PropertyCheck):
                 t.append("shift.float32_would_differ")
         return sorted(set(t))
 
+    def shrink_masked(self, case):
+        """smaller pad_masked_sequence requests: plain options, fewer sequences, fewer time steps (halves
+        first: the size stream reaches T > 1000), no trailing dims"""
+        N, T, bf = case["N"], case["T"], case["batch_first"]
+        for k in ("x_layout", "call", "value_kind", "parent_eval", "stream", "large", "append"):
+            if k in case:
+                yield {q: v for q, v in case.items() if q != k}
+        if case.get("mask_var") and not case["mask_var"].startswith("bcast"):
+            yield {q: v for q, v in case.items() if q != "mask_var"}
+        if case.get("entry") != "functional":
+            yield dict(case, entry="functional")
+
+        def cut(keep_n, keep_t):
+            if bf:
+                x = [[case["x"][n][t] for t in keep_t] for n in keep_n]
+                m = [[case["mask"][n][t] for t in keep_t] for n in keep_n]
+                outer = [len(keep_n), len(keep_t)]
+            else:
+                x = [[case["x"][t][n] for n in keep_n] for t in keep_t]
+                m = [[case["mask"][t][n] for n in keep_n] for t in keep_t]
+                outer = [len(keep_t), len(keep_n)]
+            return dict(case, N=len(keep_n), T=len(keep_t), x=x, mask=m, outer_shape=outer)
+
+        allN, allT = list(range(N)), list(range(T))
+        if N > 3:
+            yield cut(allN[:N // 2], allT)
+            yield cut(allN[N // 2:], allT)
+        if T > 3:
+            yield cut(allN, allT[:T // 2])
+            yield cut(allN, allT[T // 2:])
+            yield cut(allN, allT[:T - T // 4])
+            yield cut(allN, allT[T // 4:])
+        if N > 1:
+            for n in (allN if N <= 8 else allN[:4] + allN[-4:]):
+                yield cut([m for m in allN if m != n], allT)
+        if T > 1:
+            for t in (allT if T <= 40 else allT[:20] + allT[-20:]):
+                yield cut(allN, [u for u in allT if u != t])
+        if case["trail"] and not case.get("x_layout"):
+            if bf:
+                x = [[[(fr + [n * 1000 + t + 1])[0]] for t, fr in enumerate(row)] for n, row in enumerate(case["x"])]
+            else:
+                x = [[[(fr + [n * 1000 + t + 1])[0]] for n, fr in enumerate(row)] for t, row in enumerate(case["x"])]
+            yield dict(case, trail=[], x=x)
+        if case.get("dtype") != "float32":
+            yield dict(case, dtype="float32")
+
     def shrink(self, case):
-        if case.get("malformed") or case["fn"] in ("masked", "shapes"):
+        if case.get("malformed") or case["fn"] == "shapes":
+            return
+        if case["fn"] == "masked":
+            yield from self.shrink_masked(case)
             return
         N, T = case["N"], case["T"]
+        # large requests: halves first
+        per = [k for k in ("lens", "pad0", "pad1", "slices") if isinstance(case.get(k), list)]
+        if N > 4:
+            for part in (slice(0, N // 2), slice(N // 2, N)):
+                c = dict(case, N=len(case["x"][part]), x=case["x"][part])
+                for k in per:
+                    c[k] = case[k][part]
+                if case.get("draws"):
+                    c["draws"] = [row[part] for row in case["draws"]]
+                yield c
+        if T > 8:
+            top = max(case.get("lens") or [T])
+            T2 = top if top < T else T // 2
+            if T2 >= 1:
+                c = dict(case, T=T2, x=[row[:T2] for row in case["x"]])
+                if case.get("lens"):
+                    c["lens"] = [min(l, T2) for l in case["lens"]]
+                    if case["mode"] == "reflect":
+                        for k in ("pad0", "pad1"):
+                            if k in case:
+                                c[k] = [min(p, max(l - 1, 0)) for p, l in zip(case[k], c["lens"])]
+                yield c
+        for k in ("pad0", "pad1"):
+            if k in case and max(case[k], default=0) > 8:
+                c = dict(case)
+                c[k] = [p // 2 for p in case[k]]
+                yield c
+        if "slices" in case and max((abs(v) for p in case["slices"] for v in p), default=0) > 16:
+            yield dict(case, slices=[[int(a / 2), int(b / 2)] for a, b in case["slices"]])
         # the options that should not matter, back to plain
-        for k in ("x_layout", "idx", "call", "value_kind", "pre_modes", "parent_eval", "stream"):
+        for k in ("x_layout", "idx", "call", "value_kind", "pre_modes", "parent_eval", "stream", "large"):
             if k in case:
                 yield {q: v for q, v in case.items() if q != k}
         if case.get("entry") in ("module_parent", "util"):
